@@ -202,7 +202,7 @@ def mg3456(F, R):
                                                       strip_load(strip_load(f[1])[1])[0] in ("next", "opt")):
                     return False
                 return True
-            extra = [f for f in e.facts if own(f)]
+            extra = [f for f in e.conditions() if own(f)]
             if extra:
                 R.bad("MG5", "MG5/Sodg::merge/put-extra-condition", e.where(),
                       "the right vertex's datum is carried over only under an additional condition (%s): a datum of the right graph is "
